@@ -1,6 +1,6 @@
 (* Oracle/C05.v -- case-file runner for C05: the allocation(s) returned by sequential_phragmen
    vs. the executable continuous-money process (Spec/PhragmenMoney.v, run on the profile expanded
-   to one voter per copy) and vs. the Gallina mirror of the code (Model/Phragmen.v). *)
+   to one voter per copy when that is small) and vs. the Gallina mirror of the code (Model/Phragmen.v). *)
 From PB Require Export Model.Phragmen Spec.PhragmenMoney Oracle.Common.
 Open Scope Q_scope.
 
@@ -37,11 +37,17 @@ Definition model_out (c : case) : option (list (list nat)) :=
   then option_map (fun W => [W]) (phragmen_res I (P_of c) (tb_of c) (all_projects I) (c_loads c) (c_init c))
   else phragmen_irr I (P_of c) (tb_of c) (all_projects I) (c_loads c) (c_init c).
 
+(* The money process is run on the profile expanded to one voter per copy when there are at most 64
+   copies.  City-sized multiprofiles (the near-tie stream: classes of 10^4..10^5 voters) are run in class
+   form -- the spec itself weighs a class of multiplicity k with k in [nsupp]/[holdings]; that the two
+   forms agree is C05_phragmen_refines_money + C05_phragmen_mult. *)
+Definition copies (P : list aballot) : nat := fold_right (fun b n => (amul b + n)%nat) O P.
 Definition money_out (c : case) : option (list (list nat)) :=
   let I := I_of c in
   let P := P_of c in
-  let P1 := expandA P in
-  let L1 := expandL P (c_loads c) in
+  let small := Nat.leb (copies P) 64 in
+  let P1 := if small then expandA P else P in
+  let L1 := if small then expandL P (c_loads c) else c_loads c in
   if c_resolute c
   then option_map (fun W => [W]) (money_process_res I P1 (tb_of c) (all_projects I) L1 (c_init c))
   else money_process_irr I P1 (tb_of c) (all_projects I) L1 (c_init c).
